@@ -7,10 +7,19 @@ Ltac Zify.zify_post_hook ::= Z.to_euclidean_division_equations.
 
 Lemma dec64_pos x : 0 < x -> x < two64 -> dec64 x = x - 1.
 Proof.
-  intros H0 H1. unfold dec64, u64.
-  replace (x + (two64 - 1)) with ((x - 1) + 1 * two64) by (unfold two64 in *; lia).
-  rewrite N.mod_add by (unfold two64; discriminate).
-  apply N.mod_small. lia.
+  intros H0 _. unfold dec64. replace (x =? 0) with false by (symmetry; apply N.eqb_neq; lia).
+  reflexivity.
+Qed.
+
+(** [dec64] is the [size_t] subtraction of one. *)
+Lemma dec64_u64 x : x < two64 -> dec64 x = u64 (x + (two64 - 1)).
+Proof.
+  intros H. unfold dec64. destruct (x =? 0) eqn:E.
+  - apply N.eqb_eq in E. subst x. rewrite u64_small; [reflexivity|unfold two64; lia].
+  - apply N.eqb_neq in E. unfold u64.
+    replace (x + (two64 - 1)) with ((x - 1) + 1 * two64) by (unfold two64 in *; lia).
+    rewrite N.mod_add by (unfold two64; discriminate).
+    symmetry. apply N.mod_small. lia.
 Qed.
 
 Lemma sub64_le a b : b <= a -> a < two64 -> sub64 a b = a - b.
